@@ -258,6 +258,13 @@ def doc_params(tier):
             for rpc in (1, 2, 1024):
                 for shift in (0, 7, 720):
                     out.append({"t": "backend", "tc": tc, "dtype": dtype, "L": L, "P": 4, "rpc": rpc, "shift": shift})
+        # images of 2 / 4 GiB and more: the data of line k begins d bytes below 2^31, 2^32, 2^40 (a line straddling the boundary,
+        # ending exactly at it, beginning exactly at it)
+        bps = 2 if tc == "IU2" else 8
+        for B in (2**31, 2**32, 2**40):
+            for k in range(3):
+                for d in (0, 1, 4 * bps - 1, 4 * bps, 4 * bps + 1):
+                    out.append({"t": "backend", "tc": tc, "dtype": dtype, "L": 3, "P": 4, "rpc": 2, "shift": B - d - (720 + k * (192 + 4 * bps) + 192)})
         # byte ranges whose lengths grow / whose gaps vary (records are not required to be equally long)
         for L in (3, 6):
             for mode in ("growing", "gaps", "one-off"):
@@ -429,7 +436,7 @@ def run(res, tier, seed):
         "generated documents: dtype {b1; i1..i8; u1..u8; f2,f4,f8; M8/m8[s,ms,us,ns]; U} x shape {(),(0,),(1,),(3,),(2,2)} x value"
         " alphabet rotated through every position (incl. NaN, +-inf, -0.0, denormals, int extremes, 2^53+1, NaT, int64 extremes for"
         " times, non-ASCII / empty strings) x byte order x ndarray|list; 9 attribute dictionaries (int/float extremes, tuples in"
-        " lists in tuples, unicode); nesting depth 0..2 x all orders of 3 variables; backend image arrays; reader-produced groups of"
+        " lists in tuples, unicode); nesting depth 0..2 x all orders of 3 variables; backend image arrays (byte ranges shifted, uneven, and straddling / touching offsets 2^31, 2^32, 2^40 on every line); reader-produced groups of"
         " both levels with extreme line fields, blank headers and boundary time stamps, and with per-line values identical on all lines / drifting by one unit per line / piecewise constant, and 4200-line images with extreme values on a few lines. Every document goes encode -> decode in"
         " process and encode -> text -> fresh interpreter."
     )
